@@ -43,6 +43,11 @@ def main():
     env = dict(os.environ, PYTHONPATH=wt)
     # 0. state of the worktree: change applied?
     rc, diff = sh("git diff", cwd=wt)
+    want = open(os.path.join(d, "patch.diff")).read()
+    if diff.strip() and diff.strip() != want.strip():
+        print("worktree diff differs from patch.diff: resetting the worktree to the patch")
+        sh("git checkout -- .", cwd=wt)
+        diff = ""
     if not diff.strip():
         rc, o = sh("git apply %s" % os.path.join(d, "patch.diff"), cwd=wt)
         print("applied patch to worktree:", rc, o[:200])
@@ -54,9 +59,12 @@ def main():
     sh("git -C /repo worktree remove --force %s" % chk)
     # 2. demonstration
     rc_with, o_with = sh("/venv/bin/python %s" % os.path.join(d, "demo.py"), cwd=wt, env=env)
-    sh("git stash", cwd=wt)
+    # (git stash is shared between all worktrees of a repository: reverse-apply the patch instead)
+    rc_r, o_r = sh("git apply -R %s" % os.path.join(d, "patch.diff"), cwd=wt)
     rc_without, o_without = sh("/venv/bin/python %s" % os.path.join(d, "demo.py"), cwd=wt, env=env)
-    sh("git stash pop", cwd=wt)
+    rc_a, o_a = sh("git apply %s" % os.path.join(d, "patch.diff"), cwd=wt)
+    if rc_r or rc_a:
+        print("WARNING: reverse/apply of the patch failed:", o_r[-200:], o_a[-200:])
     out["ran"]["demo_exit_with_change"] = rc_with
     out["ran"]["demo_exit_without_change"] = rc_without
     out["ran"]["demo_tail_with_change"] = o_with[-400:]
